@@ -331,3 +331,114 @@ def fractions_stream(rng, thorough, streams, viol, samples):
         viol.append({"name": "frac-coq", "found_input": False, "key": "frac-coq",
                      "payload": {"broken": "model evaluation failed in Coq", "errors": errs[:2]}})
     samples += [{"case": cases[0], "impl_fractions": impl[0].get("fr")}]
+
+
+# ---------------------------------------------------------------- data sets with another year length (C06)
+PRE_Y = ("From Coq Require Import ZArith NArith List PrimFloat.\nImport ListNotations.\n"
+         "From Bignums Require Import BigQ.\n"
+         "From RD Require Import Base Lib.Py Lib.Num Lib.CertQ Gen.Tables Gen.ConvGen Gen.InvGen Model.Units Model.UnitsCheck.\n"
+         "Definition chkf (c : float * str * float * float) : bool := let '(yr, u, t, s) := c in\n"
+         "  match convert_decay_time float_ops time_units_f year_units yr t u with OK x => feq x s | _ => false end.\n"
+         "Definition chkh (c : float * (float * str) * str * float) : bool := let '(yr, (v, su), u, s) := c in\n"
+         "  match time_unit_conv float_ops time_units_f year_units v su u yr with OK x => feq x s | _ => false end.\n"
+         "Definition chkq (c : qlit * str * qlit * qlit) : bool := let '(yr, u, x, y) := c in\n"
+         "  match convert_decay_time bigQ_ops (tq time_units_q) year_units (bq_of yr) (bq_of x) u with\n"
+         "  | OK r => BigQ.eq_bool r (bq_of y) | _ => false end.\n")
+YEAR_UNITS = ["y", "yr", "year", "years", "ky", "My", "By", "Gy", "Ty", "Py"]
+
+
+def year_dataset_stream(rng, thorough, streams, viol, samples):
+    """the default data set and two copies with other year lengths (365.25 and 360 days), used interleaved in one process"""
+    import numpy as np
+    from fractions import Fraction
+    names, stable = dataset_names()
+    radio = [n for n, s in zip(names, stable) if not s]
+    dd = np.load(os.path.join(C.REPO, "radioactivedecay/icrp107_ame2020_nubase2020/decay_data.npz"), allow_pickle=True)
+    stored_y = [str(n) for n, h in zip(dd["nuclides"], dd["hldata"]) if str(h[1]) in YEAR_UNITS and float(h[0]) != math.inf]
+    years = [["1461", "4"], ["360", "1"]]
+    yfloat = [float(dd["year_conv"]), 365.25, 360.0]
+    yexact = [None, Fraction(1461, 4), Fraction(360)]
+    from decimal import Decimal
+    yexact[0] = Fraction(Decimal(repr(yfloat[0])))
+    steps = []
+    n = 60 if thorough else 12
+    for _ in range(n):
+        u = rng.choice(YEAR_UNITS + (["d", "h", "s"] if rng.random() < 0.2 else []))
+        t = float(round(10 ** rng.uniform(-6, 6), rng.randint(0, 6)) or 1.0).hex()
+        nuc = rng.choice(stored_y)
+        order = [0, 1, 2]
+        rng.shuffle(order)
+        for di in order:          # the same request against every data set, back to back
+            steps.append([di, "conv", [t, u]])
+        for di in order:
+            steps.append([di, "decay", [nuc, t, u]])
+        hu = rng.choice(["s", "d", "y", "ky", "h", "My"])
+        for di in order:
+            steps.append([di, "half_life", [nuc, hu]])
+        if rng.random() < (1.0 if thorough else 0.5):
+            for di in order:
+                steps.append([di, "hpconv", [t, u]])
+    os.makedirs(C.SCRATCH, exist_ok=True)
+    impl = run_impl("impl_yeards.py", {"scratch": C.SCRATCH, "years": years, "steps": steps}, timeout=3000)
+    tf, th, tq_, mapf, maph, mapq, bad_prop = [], [], [], [], [], [], []
+
+    def ql(fr):
+        return f"(QL ({fr.numerator})%Z {fr.denominator}%positive)"
+    for k, ((di, kind, args), r) in enumerate(zip(steps, impl)):
+        c = {"dataset_year_days": yfloat[di], "call": kind, "args": args, "step": k}
+        if "err" in r:
+            bad_prop.append((c, "raised " + r["err"]))
+            continue
+        if kind in ("conv", "decay"):
+            t, u = (args[0], args[1]) if kind == "conv" else (args[1], args[2])
+            tf.append(f"({Q.fhex(yfloat[di])}, {Q.cstr(u)}, {Q.fhex(float.fromhex(t))}, {Q.fhex(float.fromhex(r['secs']))})")
+            mapf.append((c, r))
+            if kind == "decay":
+                for key in ("decay_same", "cum_same"):
+                    if not r[key]:
+                        bad_prop.append((c, f"{key}: the result for t {u} differs from the result for the equivalent seconds"))
+        elif kind == "half_life":
+            sv, su = r["stored"]
+            if args[1] == su:
+                if r["T"] != sv:
+                    bad_prop.append((c, "half_life in the storage unit is not the stored value"))
+            else:
+                th.append(f"({Q.fhex(yfloat[di])}, ({Q.fhex(float.fromhex(sv))}, {Q.cstr(su)}), {Q.cstr(args[1])}, {Q.fhex(float.fromhex(r['T']))})")
+                maph.append((c, r))
+            if abs(float.fromhex(r["left"]) - 0.5) > 16 * 2 ** -53:
+                bad_prop.append((c, f"decaying for the reported half-life leaves {float.fromhex(r['left'])!r}, not 0.5"))
+            if not (r["via_nuclide"] == r["via_inventory"] == r["T"]):
+                bad_prop.append((c, "the three half-life interfaces disagree"))
+        elif kind == "hpconv":
+            if r["x"] is None or r["y"] is None:
+                continue
+            x, y = Fraction(int(r["x"][0]), int(r["x"][1])), Fraction(int(r["y"][0]), int(r["y"][1]))
+            tq_.append(f"({ql(yexact[di])}, {Q.cstr(args[1])}, {ql(x)}, {ql(y)})")
+            mapq.append((c, r))
+            if not r["same_in_inventory"]:
+                bad_prop.append((c, "InventoryHP._convert_decay_time differs from UnitConverterSympy.time_unit_conv"))
+    bad_m, errs = [], []
+    for tag, typ, terms, chk, mp in (("yearf", "float * str * float * float", tf, "chkf", mapf),
+                                     ("yearh", "float * (float * str) * str * float", th, "chkh", maph),
+                                     ("yearq", "qlit * str * qlit * qlit", tq_, "chkq", mapq)):
+        if terms:
+            b, e = Q.run_cases(tag, PRE_Y, typ, terms, chk)
+            bad_m += [mp[i] for i in b]
+            errs += e
+    streams["year_datasets"] = {"cases": len(steps), "float_conversions": len(tf), "half_lives": len(th), "exact_conversions": len(tq_),
+                                "model_disagrees": len(bad_m), "impl_property_failures": len(bad_prop), "coq_errors": len(errs),
+                                "what": "default data set + copies with 365.25 and 360 days per year used interleaved in one process: seconds / "
+                                        "half-lives bit-exact (float) and exact (SymPy) vs the generated conversion with THAT data set's year; "
+                                        "decay/cumulative_decays in year units = call in seconds; halving; three half-life interfaces agree"}
+    for c, why in bad_prop[:3]:
+        viol.append({"name": f"yeards-{len(viol)}", "found_input": True, "key": f"yeards:{why[:50]}",
+                     "payload": {"fails": why, "input": c, "how": "tools/impl_yeards.py (copies of the data set with year_conv replaced)"}})
+    for c, r in bad_m[:3]:
+        # the model IS the specification here (year-based units use the data set's days-per-year): a disagreement is a failing input
+        viol.append({"name": f"yeards-model-{len(viol)}", "found_input": True, "key": f"yeards-model:{c['call']}:{c['args'][-1]}",
+                     "payload": {"fails": "time conversion with the data set's own days-per-year differs from what the implementation used",
+                                 "input": c, "observed": r}})
+    if errs:
+        viol.append({"name": "yeards-coq", "found_input": False, "key": "yeards-coq",
+                     "payload": {"broken": "model evaluation failed in Coq", "errors": errs[:2]}})
+    samples.append({"year_dataset_case": steps[0], "impl": impl[0]})
